@@ -256,10 +256,18 @@ func drawPipeCase(rt *rapid.T, maxInputs int, minLangs int) pipeCase {
 		cfg.SafeNames = rapid.IntRange(0, 3).Draw(rt, "safenames") != 0
 		cfg.NoBytes = true
 		cfg.MaxDefs = 5
+		cfg.Intersections = rapid.IntRange(0, 2).Draw(rt, "intersections") == 0
+		if cfg.Intersections {
+			cfg.MaxDefs = 6
+		}
 		sc := drawSchemaCase(rt, cfg, 0)
 		sc.Model.Package = pkgs[i]
 		if sc.SplitPkg != "" {
 			sc.SplitPkg = "common" + pkgs[i]
+		}
+		// an input transformation that adds an object to the package
+		if rapid.IntRange(0, 2).Draw(rt, "transform") == 0 && sc.Model.Def(sc.Model.Entry+"Copy") == nil {
+			sc.Transforms = []string{fmt.Sprintf("passes:\n  - duplicate_object: {object: %q, as: %q}\n", sc.Model.Package+"."+sc.Model.Entry, sc.Model.Package+"."+sc.Model.Entry+"Copy")}
 		}
 		c.Inputs = append(c.Inputs, sc)
 	}
@@ -276,6 +284,10 @@ func drawPipeCase(rt *rapid.T, maxInputs int, minLangs int) pipeCase {
 		}
 	}
 	sort.Strings(c.Languages)
+	// a transformation applied to all the schemas, aimed at one package
+	if first := c.Inputs[0]; rapid.IntRange(0, 2).Draw(rt, "commonpass") == 0 && first.Model.Def(first.Model.Entry+"Dup") == nil {
+		c.Config.CommonPasses = []string{fmt.Sprintf("passes:\n  - duplicate_object: {object: %q, as: %q}\n", first.Model.Package+"."+first.Model.Entry, first.Model.Package+"."+first.Model.Entry+"Dup")}
+	}
 	// veneers: a rule set for all languages and one per language whose effects
 	// do not commute (rename a -> b, then b -> c), on the entry object of the
 	// first input
@@ -358,13 +370,22 @@ func pipeLabels(run *vlib.Run, c pipeCase) {
 	if len(c.Config.Veneers) > 0 {
 		run.Label(fmt.Sprintf("veneer-files:%d", len(c.Config.Veneers)))
 	}
+	if len(c.Config.CommonPasses) > 0 {
+		run.Label("common-transformation")
+	}
 	for _, in := range c.Inputs {
 		run.Label("input:" + string(in.Format))
 		if in.Meta != nil {
 			run.Label("composable-plugin")
 		}
+		if len(in.Transforms) > 0 {
+			run.Label("input-transformation")
+		}
 		if in.Model == nil {
 			continue
+		}
+		if in.Model.Def("Combined") != nil {
+			run.Label("intersection")
 		}
 		run.Label(in.Model.Features()...)
 		if in.SplitPkg != "" {
